@@ -105,6 +105,26 @@ PROPS["C04"] = dict(
     ],
 )
 
+PROPS["C05"] = dict(
+    title="Serialization is canonical and validating for every key and signature type",
+    rule=("per decoder (BLS private / public / signature parsing in aggregation and Verify; ECDSA private / raw public / compressed public on both curves) near-valid strings: encodings of library-produced objects and of oracle-built points "
+          "(subgroup, curve-but-not-subgroup, cofactor torsion, small order, infinity) mutated by bit flips, flag-bit combinations, coordinates from {0,1,2,p-1,p,p+1,2^381-1,2^384-1}, x+p aliases, non-residue x, dirty infinity at every position, "
+          "truncation/extension to 0..200 bytes, every prefix byte, scalars {0,1,r-1,r,r+1,2^255,2^256-1}, random strings. Oracle = exact acceptance sets (strict ZCash codec + subgroup test by r-multiplication; on-curve + reduced for ECDSA): "
+          "rejected ⇒ typed error, accepted ⇒ oracle accepts and re-encoding returns the input, oracle accepts ⇒ library accepts; produced objects round-trip. Non-trivial = the string derives from a valid encoding or an oracle-built point (not random garbage); distinct by the byte string."),
+    assumptions=BLS_ASSUME[:1] + ["oracle/wecdsa (generic Weierstrass arithmetic, X9.62 compression) is trusted; self-tested against RFC 6979 vectors, crypto/elliptic and btcec",
+        "while finding F1 (G2 coefficient order c0||c1 instead of ZCash c1||c0) is listed as known, the BLS public-key oracle uses the library's coefficient order and counts that exclusion; everything else of the ZCash format is still enforced",
+        "the zero private key that AggregateBLSPrivateKeys documents it may return is not required to round-trip"],
+    jobs=[
+        J("TestC05_BLSPrivate", 1500, 20000, shards=1),
+        J("TestC05_BLSPublic", 800, 5000, shards=6),
+        J("TestC05_BLSSignature", 1500, 10000, shards=3),
+        J("TestC05_ECDSAPrivate", 1500, 20000, shards=1),
+        J("TestC05_ECDSAPublic", 1500, 10000, shards=2),
+        J("TestC05_Produced", 300, 2000, shards=2),
+        J("TestC05_Enumerations", 3, 8, shards=2),
+    ],
+)
+
 
 def custom_command(job, tier, n, seed, rundir, repo, verif, work):
     raise RuntimeError("no custom job kinds yet: %r" % job.get("kind"))
